@@ -947,6 +947,17 @@ func (env *SpecEnv) call(e *Expr) *Value {
 			return scalar(tBool, False)
 		}
 		return v
+	case "locked":
+		// locked(s, "mu"): this thread holds the monitored mutex field mu of struct *s (ghost)
+		sv := env.eval(args[0])
+		if sv.K != KPtr || args[1].Op != "str" {
+			specFail("locked(ptr, \"mutexField\")")
+		}
+		m := x.db.Monitors[structName(derefType(sv))+"."+args[1].Name]
+		if m == nil {
+			specFail("locked: no monitor %s.%s", structName(derefType(sv)), args[1].Name)
+		}
+		return scalar(tBool, x.heldTerm(env.cur, m, sv.P.Base))
 	case "after":
 		// after(F, expr): expr evaluated in the state right after the most recent call of F
 		n := exprTypeName(args[0])
